@@ -48,4 +48,7 @@ package opqueue
 //@   ensures err == nil && len(ops) == cond(num < old(len(q.items)), num, old(len(q.items))) && sameSlice(ops, old(q.items))
 //@   ensures len(q.items) == old(len(q.items)) - len(ops)
 //@   ensures forall k int :: 0 <= k && k < len(q.items) ==> q.items[k] == old(q.items[len(ops) + k])
+//     the in-flight batch (returned, and captured by nack) is out of reach of the queue: whatever Add appends to
+//     q.items lands behind the batch in the shared backing array (or in another array), never inside it
+//@   ensures len(ops) == 0 || arrOf(q.items) != arrOf(ops) || offOf(q.items) >= offOf(ops) + len(ops)
 //@   modifies q.items
